@@ -225,6 +225,37 @@ def main():
             if gc.central_state_hash.tolist() != gc.hasher.make_hashes(gc.encode_states(cs)).tolist() or gc.central_state_hash.tolist() != g.hasher.make_hashes(g.encode_states(cs)).tolist():
                 ck.violation("C03/copy-central-hash-stale", "a derived graph copy holds a hash for its central state that differs from the hash of that state", {"case": {"gd": gd.to_json(), "seed": seed}})
 
+    # ---------- 1b. spread of the dot-product hash on SMALL entries (what un-encoded graphs hash): the property tolerates
+    # random collisions only below 2^-40 per pair, so the hashes of small-entry states must spread over more than 2^48
+    # values.  If they do not, a birthday search over random states looks for a concrete colliding pair.
+    for _ in range(3 if not ck.thorough else 12):
+        if ck.enough():
+            break
+        size = rng.choice([8, 12, 20, 33])
+        seed = rng.choice(seeds)
+        from cayleypy import CayleyGraph, CayleyGraphDef
+
+        g = CayleyGraph(CayleyGraphDef.create([[(i + 1) % size for i in range(size)]], central_state=list(range(size))), bit_encoding_width=None, random_seed=seed, device="cpu")
+        gen = torch.Generator().manual_seed(rng.randrange(2**31))
+        t = torch.randint(0, size, (4096, size), generator=gen, dtype=torch.int64)
+        hs = g.hasher.make_hashes(t)
+        spread = int(hs.abs().max())
+        ck.case(["dot-spread", size, seed], True, sample={"kind": "dot-hash spread", "size": size, "seed": seed, "max_abs_hash_bits": spread.bit_length()})
+        ck.count("hash:dot:spread")
+        if spread < 2**48:
+            # birthday search for a concrete failing input
+            big = torch.randint(0, size, (1500000, size), generator=gen, dtype=torch.int64)
+            big = torch.unique(big, dim=0)
+            hb = g.hasher.make_hashes(big)
+            order = torch.argsort(hb)
+            same = (hb[order][1:] == hb[order][:-1]).nonzero().reshape(-1)
+            rep = {"case": {"kind": "dot-spread", "size": size, "seed": seed}, "max_abs_hash_bits": spread.bit_length()}
+            if len(same) > 0:
+                i = int(same[0])
+                a, b = big[order[i]].tolist(), big[order[i + 1]].tolist()
+                ck.violation("C03/dot/birthday-collision", f"the dot-product hash of small-entry states spans only {spread.bit_length()} bits: two distinct states among {len(big)} random ones collide (probability per pair far above 2^-40)", dict(rep, state_a=a, state_b=b, hash=int(hb[order[i]])))
+            else:
+                ck.correspondence_break(f"dot-product hash of small-entry states spans only {spread.bit_length()} bits (< 48): collision probability per pair above 2^-40", rep)
     # ---------- 2. get_unique_states against the model (stable sort + first-occurrence mask)
     for _ in range(60 if not ck.thorough else 1500):
         if ck.enough():
